@@ -111,7 +111,7 @@ pub fn do_push(pre: &Raw, m: &[u8], ad: Option<&[u8]>, tag: u8) -> Result<(Vec<u
     // classic
     let mut st = mk_state(pre);
     let r = guarded(AssertUnwindSafe(|| {
-        let mut c = vec![0u8; m.len() + 17];
+        let mut c = vec![0xC3u8; m.len() + 17];
         ss::crypto_secretstream_xchacha20poly1305_push(&mut st, &mut c, m, ad, tag).map(|_| c)
     }));
     let c = match r {
@@ -354,7 +354,7 @@ pub fn step(sys: &Sys, act: &Act) -> Sys {
                         *x = h2[i % 24];
                     }
                 })));
-                let mut hout = [0u8; 24];
+                let mut hout = [0xC3u8; 24];
                 ss::crypto_secretstream_xchacha20poly1305_init_push(&mut push, &mut hout, &key);
                 dryoc::rng::verif::set_source(None);
                 ss::crypto_secretstream_xchacha20poly1305_init_pull(&mut pull, &hout, &key);
@@ -601,7 +601,7 @@ pub fn init_path_states(seed: u64, st: &mut Stats) -> Vec<(String, Sys)> {
                 }
             })));
             let mut push = ss::State::new();
-            let mut hout = [0u8; 24];
+            let mut hout = [0xC3u8; 24];
             ss::crypto_secretstream_xchacha20poly1305_init_push(&mut push, &mut hout, &key);
             let (ds, hobj): (DryocStream<Push>, dryoc::dryocstream::Header) =
                 DryocStream::init_push(&dryoc::dryocstream::Key::from(&key));
